@@ -129,14 +129,14 @@ theorem exec_rti_user (s : Sim) (hu : PSR.privileged s.psr = false) (hi : s.flag
 /-- an access outside user space with user privilege is an access violation and touches nothing but the ghost log -/
 theorem readMem_violation (s : Sim) (a : W) (c : Ctx) (hp : c.privileged = false) (hu : inUser a = false) :
     ∃ s', readMem a c s = (.error (.err .accessViolation), s') ∧ s'.mem = s.mem ∧ s'.regs = s.regs ∧
-      s'.dev = s.dev ∧ s'.pc = s.pc ∧ s'.psr = s.psr ∧ s'.observer = s.observer := by
-  refine ⟨{ s with log := ⟨a, false, c.privileged, false⟩ :: s.log }, ?_, rfl, rfl, rfl, rfl, rfl, rfl⟩
+      s'.dev = s.dev ∧ s'.pc = s.pc ∧ s'.psr = s.psr ∧ s'.observer = s.observer ∧ s'.prefetch = s.prefetch := by
+  refine ⟨{ s with log := ⟨a, false, c.privileged, false⟩ :: s.log }, ?_, rfl, rfl, rfl, rfl, rfl, rfl, rfl⟩
   unfold readMem; simp [hp, hu]
 
 theorem writeMem_violation (s : Sim) (a : W) (w : Word) (c : Ctx) (hp : c.privileged = false) (hu : inUser a = false) :
     ∃ s', writeMem a w c s = (.error (.err .accessViolation), s') ∧ s'.mem = s.mem ∧ s'.regs = s.regs ∧
-      s'.dev = s.dev ∧ s'.pc = s.pc ∧ s'.psr = s.psr ∧ s'.observer = s.observer := by
-  refine ⟨{ s with log := ⟨a, true, c.privileged, false⟩ :: s.log }, ?_, rfl, rfl, rfl, rfl, rfl, rfl⟩
+      s'.dev = s.dev ∧ s'.pc = s.pc ∧ s'.psr = s.psr ∧ s'.observer = s.observer ∧ s'.prefetch = s.prefetch := by
+  refine ⟨{ s with log := ⟨a, true, c.privileged, false⟩ :: s.log }, ?_, rfl, rfl, rfl, rfl, rfl, rfl, rfl⟩
   unfold writeMem; simp [hp, hu]
 
 /-- a permitted read below the I/O page returns the memory word, leaves memory/registers/devices unchanged -/
@@ -217,9 +217,92 @@ theorem exec_sti (s : Sim) (sr : Reg) (off : BitVec 9) (hs : s.flags.strict = fa
     Word.getIfInit_nonstrict, SimM.liftE_ok]
   split <;> simp_all
 
+
+/-! ### traps, exceptions, virtual and real -/
+
+/-- TRAP is the supervisor-entry path with the zero-extended vector and no priority (R7 is not written) -/
+theorem exec_trap (s : Sim) (v : BitVec 8) : execInstr (.trap v) s = handleInterrupt (v.setWidth 16) none s := by
+  simp [execInstr, UOff.get]
+
+/-- the three-way structure of `handle_interrupt`: priority gate; virtual break for HALT and the three exceptions
+    when real traps are off; otherwise the supervisor entry -/
+theorem handle_structure (s : Sim) (vect : W) (prio : Option Nat) :
+    handleInterrupt vect prio s =
+      if s.gated prio then (.ok (), s)
+      else if !s.flags.realTraps then
+        match realIntVect vect with
+        | some brk => virtualBreak brk s
+        | none => enterSupervisor vect prio s
+      else enterSupervisor vect prio s := rfl
+
+/-- which vectors are virtualised: x25 (HALT), x100 (privilege), x101 (illegal opcode), x102 (access violation) -/
+theorem virtual_vectors :
+    realIntVect 0x25 = some .halt ∧ realIntVect 0x100 = some (.err .privilegeViolation) ∧
+    realIntVect 0x101 = some (.err .illegalOpcode) ∧ realIntVect 0x102 = some (.err .accessViolation) ∧
+    realIntVect 0x20 = none ∧ realIntVect 0x180 = none := by decide
+
+/-- a virtual break reports the break, restores the PC of the instruction that caused it (if it had already been
+    incremented) and sets `prefetch`; afterwards `prefetch_pc()` is still the faulting instruction's address -/
+theorem virtual_break_spec (s : Sim) (brk : StepBreak) (hs : s.flags.strict = false) :
+    (virtualBreak brk s).1 = .error brk ∧
+    (virtualBreak brk s).2.pc = (if s.prefetch then s.pc else s.pc - 1) ∧
+    (virtualBreak brk s).2.prefetch = true ∧ (virtualBreak brk s).2.prefetchPc = s.prefetchPc ∧
+    (virtualBreak brk s).2.mem = s.mem ∧ (virtualBreak brk s).2.regs = s.regs := by
+  unfold virtualBreak
+  cases hp : s.prefetch
+  · simp only [SimM.bind_apply, SimM.getS_apply, hp, Bool.not_false, if_true, offsetPc]
+    rw [Sim.setPc_nonstrict _ _ _ hs]
+    simp only [SimM.modifyS_apply, SimM.throwB_apply, Word.ofData_data, prefetchPc, hp, Bool.false_eq_true, if_false,
+      if_true, true_and, and_true]
+    constructor <;> bv_omega
+  · simp only [SimM.bind_apply, SimM.getS_apply, hp, Bool.not_true, Bool.false_eq_true, if_false, SimM.pure_apply,
+      SimM.throwB_apply, prefetchPc, if_true, true_and, and_true]
+
+/-- a failing fetch (access violation at PC): nothing executed, PC still points at the instruction, `prefetch_pc()` = PC -/
+theorem fetch_fault_addr (s1 : Sim) (hu : s1.defaultCtx.privileged = false) (hpc : inUser s1.pc = false)
+    (hpf : s1.prefetch = true) :
+    ∃ s', fetchExec s1 = (.error (.err .accessViolation), s') ∧ s'.pc = s1.pc ∧ s'.prefetchPc = s1.pc ∧
+      s'.mem = s1.mem ∧ s'.regs = s1.regs := by
+  obtain ⟨s', h', hm, hr, _, hp, _, _, hpf'⟩ := readMem_violation s1 s1.pc _ hu hpc
+  refine ⟨s', ?_, hp, ?_, hm, hr⟩
+  · unfold fetchExec; simp [h']
+  · simp [prefetchPc, hpf', hpf, hp]
+
+/-- a data access violation in LD / ST (virtual traps): the error is reported with the PC one past the instruction
+    and `prefetch` clear, so `prefetch_pc()` is the faulting instruction's address; nothing else changed -/
+theorem ld_st_fault_addr (s : Sim) (r : Reg) (off : BitVec 9) (hs : s.flags.strict = false)
+    (hu : s.defaultCtx.privileged = false) (ha : inUser (s.pc + off.signExtend 16) = false) (hpf : s.prefetch = false) :
+    (∃ s', execInstr (.ld r off) s = (.error (.err .accessViolation), s') ∧ s'.prefetchPc = s.pc - 1 ∧ s'.mem = s.mem ∧ s'.regs = s.regs) ∧
+    (∃ s', execInstr (.st r off) s = (.error (.err .accessViolation), s') ∧ s'.prefetchPc = s.pc - 1 ∧ s'.mem = s.mem ∧ s'.regs = s.regs) := by
+  constructor
+  · obtain ⟨s', h', hm, hr, _, hp, _, _, hpf'⟩ := readMem_violation s (s.pc + off.signExtend 16) _ hu ha
+    refine ⟨s', ?_, ?_, hm, hr⟩
+    · rw [exec_ld s r off hs, h']
+    · simp [prefetchPc, hpf', hpf, hp]
+  · obtain ⟨s', h', hm, hr, _, hp, _, _, hpf'⟩ := writeMem_violation s (s.pc + off.signExtend 16) (s.reg r) _ hu ha
+    refine ⟨s', ?_, ?_, hm, hr⟩
+    · rw [exec_st s r off hs, h']
+    · simp [prefetchPc, hpf', hpf, hp]
+
+/-- real traps: `step` turns HALT and the exceptions raised by the inner step into supervisor entries at the OS
+    vectors x25, x100 (privilege), x101 (illegal opcode or malformed instruction), x102 (access violation) -/
+theorem real_trap_vectoring (s s' : Sim) (hr : s'.flags.realTraps = true) :
+    (stepInner s = (.error .halt, s') → Sim.step s = handleInterrupt 0x25 none s') ∧
+    (stepInner s = (.error (.err .privilegeViolation), s') → Sim.step s = handleInterrupt 0x100 none s') ∧
+    (stepInner s = (.error (.err .illegalOpcode), s') → Sim.step s = handleInterrupt 0x101 none s') ∧
+    (stepInner s = (.error (.err .invalidInstrFormat), s') → Sim.step s = handleInterrupt 0x101 none s') ∧
+    (stepInner s = (.error (.err .accessViolation), s') → Sim.step s = handleInterrupt 0x102 none s') := by
+  refine ⟨?_, ?_, ?_, ?_, ?_⟩ <;> (intro h; unfold Sim.step; simp [h, hr])
+
+/-- virtual traps: `step` is the inner step -/
+theorem virtual_step (s : Sim) (hv : (stepInner s).2.flags.realTraps = false) : Sim.step s = stepInner s := by
+  unfold Sim.step; simp [hv]
+
 def obligations : List Lean.Name :=
   [``step_structure, ``exec_add, ``exec_and, ``exec_not, ``add_data, ``operate_data, ``setCC_spec, ``exec_lea,
    ``exec_br, ``exec_jmp, ``exec_jsr, ``exec_rti_user, ``readMem_violation, ``writeMem_violation,
-   ``readMem_plain, ``writeMem_plain, ``exec_ld, ``exec_ldr, ``exec_st, ``exec_str, ``exec_ldi, ``exec_sti]
+   ``readMem_plain, ``writeMem_plain, ``exec_ld, ``exec_ldr, ``exec_st, ``exec_str, ``exec_ldi, ``exec_sti,
+   ``exec_trap, ``handle_structure, ``virtual_vectors, ``virtual_break_spec, ``fetch_fault_addr, ``ld_st_fault_addr,
+   ``real_trap_vectoring, ``virtual_step]
 
 end Lc3V.C08
